@@ -121,6 +121,7 @@ def run(ctx):
     if not os.environ.get("VERIF_ELEM_ONLY"):
         from checks import gates_composite
         gates_composite.circuit_level(ctx)
+    G.second_opinion(ctx, ["Prop_C03", "Prop_C03i"])                  # Prop_C03i covers Prop_C03c
 
 
 def replay(ctx, data):
